@@ -878,6 +878,21 @@ def run(rep, tier):
                 best[key] = cand
     for key, (_, _, sig, det, cfg) in sorted(best.items(), key=lambda kv: kv[1][:2]):
         rep.violation(sig, det, {'cfg': cfg, 'sel': sel})
+    # in-run defect clause
+    icases = inrun_cases(tier)
+    iseen = set()
+    nrestr = nprev = 0
+    iworst = 0.0
+    for arg, rec in zip(icases, common.pmap(inrun_case, icases, chunksize=2)):
+        nrestr += rec['n']
+        nprev += rec['after_prev_done']
+        iworst = max(iworst, rec['worst'])
+        for v, det in rec['viol']:
+            if common.canon(v) not in iseen:
+                iseen.add(common.canon(v))
+                rep.violation(v, det, {'inrun': list(arg)})
+    evals += nrestr
+    rep.coverage['in_run'] = {'runs': len(icases), 'restrictions_checked': nrestr, 'of_which_after_the_predecessor_finished': nprev, 'worst_mismatch_over_scale': iworst, 'tolerance': 1e-12}
     allr = max(worst.values()) if worst else 0.0
     rep.coverage.update(
         {
@@ -900,7 +915,95 @@ def run(rep, tier):
     )
 
 
+# ---------------------------------------------------------------------------------------------------------------------
+# in-run clause: the defect identity right after EVERY restriction of a real multi-step run (steps that go on iterating
+# after their predecessor has finished, several blocks), not only on a freshly loaded single step
+# ---------------------------------------------------------------------------------------------------------------------
+INRUN_PROBLEMS = ('testeq', 'heat', 'advection')
+
+
+def inrun_cases(tier):
+    out = []
+    for prob in INRUN_PROBLEMS:
+        for P in (1, 2, 3) if tier == 'quick' else (1, 2, 3, 4):
+            for nlev in (2, 3):
+                for predict in ('pfasst_burnin', 'fine_only', None):
+                    for restol in (1e-8, 1e-11):
+                        for nsw in (1, 2) if tier == 'thorough' else (1,):
+                            out.append((prob, P, nlev, predict, restol, nsw))
+    return out
+
+
+_INRUN = {}
+
+
+def _checked_restrict(self):
+    """module-level on purpose: the controller copies its steps, and the copies must share this function and its records"""
+    rec, owner, orig, prob = _INRUN['rec'], _INRUN['owner'], _INRUN['orig'], _INRUN['rec']['prob']
+    orig(self)
+    F, G = self.fine, self.coarse
+    MF, MG = F.sweep.coll.num_nodes, G.sweep.coll.num_nodes
+    iF, iG = F.sweep.integrate(), G.sweep.integrate()
+    R = self.space_transfer.restrict
+    dF = [F.u[0] + iF[m] - F.u[m + 1] + (F.tau[m] if F.tau[m] is not None else 0.0) for m in range(MF)]
+    rdF = [R(d) for d in dF]
+    scale = max([1.0] + [abs(G.u[m]) for m in range(MG + 1)] + [abs(x) for x in iG])
+    S = owner.get(id(self.fine))
+    for n in range(MG):
+        want = sum(self.Rcoll[n, m] * rdF[m] for m in range(MF))
+        got = G.u[0] + iG[n] - G.u[n + 1] + G.tau[n]
+        err = abs(got - want) / scale
+        rec['worst'] = max(rec['worst'], err)
+        if err > 1e-12 and not rec['viol']:
+            u0err = abs(G.u[0] - R(F.u[0]))
+            rec['viol'].append(({'kind': 'coarse_defect_not_restricted_fine_defect_in_run', 'problem': prob}, {'node': n + 1, 'mismatch_over_scale': float(err), 'coarse_u0_minus_restricted_fine_u0': float(u0err), 'restricted_fine_defect': float(abs(want)), 'step_slot': getattr(S.status, 'slot', None) if S else None, 'iter': S.status.iter if S else None, 'stage': S.status.stage if S else None, 'prev_done': bool(S.status.prev_done) if S else None, 'time': float(F.time), 'levels': (F.level_index, G.level_index)}))
+    rec['n'] += 1
+    if S is not None and S.status.prev_done and not S.status.first:
+        rec['after_prev_done'] += 1
+
+
+def inrun_case(arg):
+    from pySDC.core.base_transfer import BaseTransfer
+    from pySDC.implementations.sweeper_classes.generic_implicit import generic_implicit
+
+    prob, P, nlev, predict, restol, nsw = arg
+    common.silence_logging()
+    dt = 0.25
+    if prob == 'testeq':
+        desc = {'problem_class': testequation0d, 'problem_params': {'lambdas': np.array([-1.0 + 0.5j, -4.0, 6.0j]), 'u0': 1.0}, 'space_transfer_class': TransferIdentity}
+        nodes = [4, 3, 2][:nlev] if nlev == 3 else [3, 2]
+    elif prob == 'heat':
+        desc = {'problem_class': heatNd_unforced, 'problem_params': {'nvars': [31, 15, 7][:nlev], 'nu': 0.5, 'freq': 2, 'bc': 'dirichlet-zero'}, 'space_transfer_class': TransferMesh, 'space_transfer_params': {'rorder': 2, 'iorder': 4}}
+        nodes = [3] * nlev
+    else:
+        desc = {'problem_class': advectionNd, 'problem_params': {'nvars': [32, 16, 8][:nlev], 'c': 1.0, 'freq': 2, 'order': 4, 'stencil_type': 'center', 'bc': 'periodic'}, 'space_transfer_class': TransferMesh, 'space_transfer_params': {'rorder': 2, 'iorder': 4, 'periodic': True}}
+        nodes = [3, 3, 2][:nlev]
+    desc.update({'sweeper_class': generic_implicit, 'sweeper_params': {'quad_type': 'RADAU-RIGHT', 'num_nodes': nodes, 'QI': 'LU'}, 'level_params': {'restol': restol, 'dt': dt, 'nsweeps': [nsw] + [1] * (nlev - 1)}, 'step_params': {'maxiter': 25}})
+    cp = {'logger_level': 90, 'dump_setup': False}
+    if predict:
+        cp['predict_type'] = predict
+    rec = {'n': 0, 'after_prev_done': 0, 'worst': 0.0, 'viol': [], 'prob': prob}
+    owner = {}
+    _INRUN.update({'rec': rec, 'owner': owner, 'orig': BaseTransfer.restrict})
+    orig = BaseTransfer.restrict
+    BaseTransfer.restrict = _checked_restrict
+    try:
+        ctrl = controller_nonMPI(num_procs=P, controller_params=cp, description=desc)
+        for S in ctrl.MS:
+            for Lv in S.levels:
+                owner[id(Lv)] = S
+        u0 = ctrl.MS[0].levels[0].prob.u_exact(0.0)
+        ctrl.run(u0=u0, t0=0.0, Tend=2 * P * dt)
+    finally:
+        BaseTransfer.restrict = orig
+    return rec
+
+
 def replay(rep, case):
+    if 'inrun' in case:
+        for v, det in inrun_case(tuple(case['inrun']))['viol']:
+            rep.violation(v, det, case)
+        return
     r = run_case((case['cfg'], case.get('sel', 0)))
     for v, det in r['viol']:
         rep.violation(sig_of(case['cfg'], v), det, case)
